@@ -1903,6 +1903,10 @@ class Exec:
                 if name == 'all':
                     return [(st, VBool(z3.And(*its) if its else z3.BoolVal(True)))]
                 return [(st, VBool(z3.Or(*its) if its else z3.BoolVal(False)))]
+            if name == 'functools.wraps':
+                return [(st, VBuiltin('identity'))]        # decorator that returns the function it is applied to
+            if name == 'identity':
+                return [(st, A[0])]
             if name in ('repr', 'format', 'hex', 'bin'):
                 return [(st, VStr(s='<fmt>'))]
             if name == 'chr':
